@@ -6,6 +6,7 @@ multisets of cells, pairs and tuples of them, leaf ranges, small cell indexes an
 call sequences, and computes every expected result from the leaf-set semantics.  The Go
 harness (p_c11.go) embeds each case at the top of the hierarchy and deep down (model leaves
 = real leaf cells) and demands exact equality."""
+import itertools
 import json
 import math
 import random
@@ -59,6 +60,16 @@ def cascade_pool(L, f, rnd):
     return pool
 
 
+def confusable_index_sets(NU):
+    """Groups of distinct sets of union indices (size 2..3, below NU) whose sorted decimal
+    renderings coincide once separators are ignored, e.g. {1,2,13} / {12,13}."""
+    by = {}
+    for n in (2, 3):
+        for s in itertools.combinations(range(NU), n):
+            by.setdefault("".join(str(x) for x in s), []).append(s)
+    return [g for k, g in sorted(by.items()) if len(g) >= 2]
+
+
 def ids(L, cells):
     return set(idx(L, f, p) for f, p in cells)
 
@@ -78,7 +89,8 @@ class Gen:
            invariants=(), simulate=None, simlen=0, seed=None, workers=10, timeout=900):
         consts = {"L": L, "NF": NF, "NU": NU, "K": K, "First": set(first), "WithEmpty": with_empty,
                   "PoolA": set(poolA), "PoolB": set(poolB), "PoolC": set(poolC), "Strict": strict,
-                  "PerCell": percell, "SimLen": simlen}
+                  "PerCell": percell, "SimLen": simlen, "IdxSets": set(), "RegionPool": set(), "Fillers": set(),
+                  "Bare": set()}
         if simulate:
             cfg = vlib.cfg(init="InitS", next_="NextS", constants=consts)
             r = self.ctx.tlc("Gen_CellUnions", cfg, workers=1, simulate="num=%d" % simulate, depth=simlen + 2,
@@ -93,9 +105,20 @@ class Gen:
 
     def ranges(self, L, NF):
         consts = {"L": L, "NF": NF, "NU": 1, "K": 0, "First": set(), "WithEmpty": False, "PoolA": set(),
-                  "PoolB": set(), "PoolC": set(), "Strict": False, "PerCell": False, "SimLen": 0}
+                  "PoolB": set(), "PoolC": set(), "Strict": False, "PerCell": False, "SimLen": 0,
+                  "IdxSets": set(), "RegionPool": set(), "Fillers": set(), "Bare": set()}
         cfg = vlib.cfg(init="InitR", next_="NextR", constants=consts, invariants=["RangeTheorem", "EmitR"])
         r = self.ctx.tlc("Gen_CellUnions", cfg, workers=8)
+        return self.seeded(r.tagged.get("CASE", []))
+
+    def many(self, L, NF, NU, idxsets, regions, fillers, bare=()):
+        """Find with NU >= 14 unions: single-cell unions plus two shared regions at index sets from idxsets."""
+        consts = {"L": L, "NF": NF, "NU": NU, "K": 0, "First": set(), "WithEmpty": False, "PoolA": set(),
+                  "PoolB": set(), "PoolC": set(), "Strict": False, "PerCell": False, "SimLen": 0,
+                  "IdxSets": "{" + ", ".join("{" + ", ".join(str(x) for x in sorted(g)) + "}" for g in idxsets) + "}",
+                  "RegionPool": set(regions), "Fillers": set(fillers), "Bare": set(bare)}
+        cfg = vlib.cfg(init="InitM", next_="NextM", constants=consts, invariants=["ManyTheorem", "Emit"])
+        r = self.ctx.tlc("Gen_CellUnions", cfg, workers=8, timeout=900)
         return self.seeded(r.tagged.get("CASE", []))
 
     def index(self, L, NF, lo, hi, given, NL, maxlen, nes=(True, False), mode="static", simulate=None, depth=None,
@@ -244,6 +267,19 @@ def run(ctx):
         p = ids(L, t)
         cases = g.cu(L, 2, 4, 99, p, p, poolB=p, poolC=p, simulate=(200 if q else 2000), simlen=rnd.choice([8, 12]),
                      seed=ctx.seed * 100 + 50 + i)
+        ctx.replay(cases)
+    # many unions (14..24): index sets of the overlaps that are easy to confuse when rendered as text
+    for NU in ([rnd.randrange(14, 25)] if q else [14, 24, rnd.randrange(15, 24)]):
+        L = 3
+        groups = confusable_index_sets(NU)
+        chosen = rnd.sample(groups, min(len(groups), 3 if q else 8))
+        idxsets = set(frozenset(s) for grp in chosen for s in grp)
+        idxsets.add(frozenset(rnd.sample(range(NU), rnd.randrange(2, 5))))
+        top = rnd.randrange(4)
+        regions = ids(L, rnd.sample(subtree(L, 0, [top]), 3 if q else 5) + [(0, ((top + 1) % 4,))])
+        fillers = ids(L, rnd.sample([c for c in subtree(L, 1, []) if len(c[1]) == L], NU))
+        bare = set(rnd.sample(range(NU), 2))
+        cases = g.many(L, 2, NU, idxsets, regions, fillers, bare)
         ctx.replay(cases)
     # ---- 4. minimal tilings of leaf ranges, MaxTile
     if q:
